@@ -15,6 +15,7 @@ E4f free-running executions (real threads, really blocking acquire()): invoke/re
 """
 import json
 import os
+import shutil
 
 SPEC = 'spec/respool'
 WHAT = 'ResourcePool bounds and exclusivity'
@@ -130,6 +131,20 @@ def free_stats(trace):
     return {'acquires': acq, 'acquires_invoked_with_pool_empty': waited}
 
 
+
+def usable(trace):
+    """A driver that crashed may leave a truncated last line: drop it (the crash itself has been
+    reported); returns False when nothing is left to validate."""
+    try:
+        data = open(trace, 'rb').read()
+    except OSError:
+        return False
+    if data and not data.endswith(b'}\n'):
+        data = data[:data.rfind(b'\n') + 1]
+        open(trace, 'wb').write(data)
+    return data.count(b'\n') >= 2
+
+
 def run(ctx):
     thorough = ctx.tier == 'thorough'
     exe = ctx.build('drv_respool', ['harness/drv/drv_respool.cpp', 'harness/ctl/ctl.cpp'])
@@ -150,29 +165,37 @@ def run(ctx):
     ctx.cov['cover_graph'] = ctx.walker(dot, sched0)
     ctx.cov['cover_graph']['steps_with_completion'] = complete_schedules(sched0, sched, parse_prog(COVER_PROG),
                                                                          COVER_SIZE)
-    tr = os.path.join(ctx.work, 'cover.ndjson')
-    tot, _ = ctx.driver(exe, ['--out', tr, '--size', COVER_SIZE, '--prog', COVER_PROG, '--schedules', sched],
+    tr_cover = os.path.join(ctx.work, 'cover.ndjson')
+    tot, _ = ctx.driver(exe, ['--out', tr_cover, '--size', COVER_SIZE, '--prog', COVER_PROG, '--schedules', sched],
                         WHAT, label='cover replay')
-    ctx.validate(SPEC, 'ResPoolTrace.tla', 'ResPoolTrace.cfg', tr, WHAT, executions=tot.get('completed', 0),
-                 label='cover replay')
-    ctx.sample_trace(tr, 14)
+    execs = tot.get('completed', 0)
+    ctx.sample_trace(tr_cover, 14)
 
-    # E4 + E3 ---------------------------------------------------------------------------------
+    # E4 (+ E3 for both: one TLC validation of the concatenated controlled traces) -----------------
     n = 6000 if thorough else 500
-    tr = os.path.join(ctx.work, 'rand.ndjson')
-    tot, _ = ctx.driver(exe, ['--out', tr, '--random', n, '--seed', ctx.seed, '--randprog'], WHAT,
+    tr_rand = os.path.join(ctx.work, 'rand.ndjson')
+    tot, _ = ctx.driver(exe, ['--out', tr_rand, '--random', n, '--seed', ctx.seed, '--randprog'], WHAT,
                         label='random controlled, sizes 1..4')
-    ctx.validate(SPEC, 'ResPoolTrace.tla', 'ResPoolTrace.cfg', tr, WHAT, executions=tot.get('completed', 0),
-                 label='random controlled')
+    execs += tot.get('completed', 0)
+    tr = os.path.join(ctx.work, 'controlled_all.ndjson')
+    with open(tr, 'wb') as o:
+        for p in (tr_cover, tr_rand):
+            if usable(p):
+                with open(p, 'rb') as f:
+                    shutil.copyfileobj(f, o)
+    if usable(tr):
+        ctx.validate(SPEC, 'ResPoolTrace.tla', 'ResPoolTrace.cfg', tr, WHAT, executions=execs,
+                     label='cover replay + random controlled')
 
     # E4f: free-running, API-level ---------------------------------------------------------------
     n = 4000 if thorough else 500
     tr = os.path.join(ctx.work, 'free.ndjson')
     tot, _ = ctx.driver(exe, ['--out', tr, '--free', n, '--seed', ctx.seed], WHAT,
                         label='free-running, sizes 1..4')
-    ctx.validate(SPEC, 'ResPoolFree.tla', 'ResPoolFree.cfg', tr, WHAT, executions=tot.get('completed', 0),
-                 label='free-running invoke/response')
-    ctx.cov['free_running'] = free_stats(tr)
+    if usable(tr):
+        ctx.validate(SPEC, 'ResPoolFree.tla', 'ResPoolFree.cfg', tr, WHAT, executions=tot.get('completed', 0),
+                     label='free-running invoke/response')
+        ctx.cov['free_running'] = free_stats(tr)
     ctx.sample_trace(tr, 10)
     ctx.assumptions += [
         'moodycamel::BlockingConcurrentQueue is a linearizable black box: every queue call is one step, '
